@@ -223,6 +223,11 @@ func (u *upstream) makeRequestsToHost(addr string, reqs ...*simpleRequest) {
 
 	c, err := u.getClient(addr)
 	if err != nil {
+		// NOTE: a node which can not be connected may have been replaced (e.g.
+		// by a failover), it can not redirect anybody to its successor: ask
+		// the cluster for the layout instead of waiting for the next periodic
+		// refresh.
+		u.triggerSlotsRefresh()
 		for _, req := range reqs {
 			req.SetResponse(newError(err.Error()))
 		}
